@@ -96,7 +96,7 @@ def abnormal_violation(r, res, what):
     r.violate(res.key, "%s: %s terminated abnormally (%s)" % (what, os.path.basename(res.argv[0]), res.key), run=res.brief())
 
 
-def run_must_terminate(ctx, tool, args, cwd, flavor=None, quick_timeout=40, confirm_timeout=240, env=None):
+def run_must_terminate(ctx, tool, args, cwd, flavor=None, quick_timeout=20, confirm_timeout=100, env=None):
     """Run a tool that must terminate.  A timeout is re-run once alone with a much larger budget; only a
     *confirmed* hang is returned as such (res.kind == 'timeout', res.key = 'hang:<tool>:<frame>')."""
     res = tool_run(ctx, tool, args, cwd, flavor, timeout=quick_timeout, env=env)
@@ -122,7 +122,7 @@ def hang_frame(argv, cwd, home):
         p = subprocess.Popen(argv, cwd=cwd, env=env, stdout=subprocess.DEVNULL, stderr=subprocess.DEVNULL, stdin=subprocess.DEVNULL)
     except OSError:
         return "?"
-    time.sleep(8)
+    time.sleep(4)
     frame = "?"
     try:
         g = subprocess.run(["gdb", "-batch", "-p", str(p.pid), "-ex", "bt 30"], stdout=subprocess.PIPE, stderr=subprocess.DEVNULL, timeout=120)
